@@ -179,9 +179,16 @@ def reply (useSpec : Bool) (kind label ints bools envs : String) (toks : List St
 /-! ### `func` lines: a FUNCTION body of the statement fragment
 
     func PARAMS|- ARGS;ARGS;… TOKENS…     (PARAMS `x,y`; ARGS `3,4`; TOKENS: prefix form
-                                            nop | seq A B | asg X EXPR | if EXPR A B | rep I EXPR EXPR S BODY | skip | esc | ret EXPR)
+                                            nop | seq A B | asg X EXPR | if EXPR A B | rep I EXPR EXPR S OPT OPT BODY | whl OPT OPT BODY | skip | esc | ret EXPR;
+                                            OPT = none | some EXPR: the WHILE and the UNTIL control)
 reply `values=v;v;…` — model: what the Python statements `Stmt.tr` gives return under `Stmt.pyExec`; spec: `Spec.Stmt.exec`;
 `!none` when the run does not end in a RETURN (or is stuck / out of fuel). -/
+/-- `none` | `some EXPR` -/
+def parseOptExpr (f : Nat) : List String → Option (Option StepModel.GenPy.Body.Expr × List String)
+  | "none" :: rest => some (none, rest)
+  | "some" :: rest => (parseExpr f rest).map (fun p => (some p.1, p.2))
+  | _ => none
+
 open StepModel.GenPy.Stmt in
 def parseStmt : Nat → List String → Option (Stmt × List String)
   | 0, _ => none
@@ -209,9 +216,16 @@ def parseStmt : Nat → List String → Option (Stmt × List String)
     match r2 with
     | st :: r3 => do
       let st ← st.toInt?
-      let (body, r4) ← parseStmt f r3
-      pure (.repeatInc i a b st body, r4)
+      let (wh, r4) ← parseOptExpr f r3
+      let (un, r5) ← parseOptExpr f r4
+      let (body, r6) ← parseStmt f r5
+      pure (.repeatInc i a b st wh un body, r6)
     | [] => none
+  | f + 1, "whl" :: rest => do
+    let (wh, r1) ← parseOptExpr f rest
+    let (un, r2) ← parseOptExpr f r1
+    let (body, r3) ← parseStmt f r2
+    pure (.repeatWhile wh un body, r3)
   | _, _ => none
 
 def funcReply (useSpec : Bool) (params args : String) (toks : List String) : Option String := do
